@@ -4,24 +4,8 @@
 //!   qxcheck replay <path>                  re-execute one recorded case
 //!   qxcheck --worker ...                   (internal)
 
-mod ctx;
-mod family;
-mod gen;
-mod monitors;
-mod obs;
-mod refmodel;
-mod rng;
-mod runner;
-mod sources;
-
-use ctx::{Ctx, Tier};
-
-pub fn verif_root() -> String {
-    std::env::var("VERIF_ROOT").unwrap_or_else(|_| "/verif".to_string())
-}
-pub fn repo_root() -> String {
-    std::env::var("QX_REPO").unwrap_or_else(|_| "/repo".to_string())
-}
+use qxverif::ctx::{self, Ctx, Tier};
+use qxverif::{monitors, runner};
 
 fn parse_tier(s: &str) -> Tier {
     match s {
